@@ -426,5 +426,45 @@ def indexed_child_accesses(f):
                 args = c['c'][1:]
                 if not args:
                     continue
-                uses = any(r.get('k') == 'Ref' and r.get('n') == ivar for a in args for r in walk(a))
+                # nested loops over the same collection (pairwise comparisons) may legitimately use the outer index as well
+                ivars = {ivar}
+                for anc in f.ancestors(loop):
+                    if anc.get('k') == 'For':
+                        m2 = _re.match(r'(\\w+) < (.+)->(\\w+)Count\\(\\)$', render(role(anc, 'cond')) or '')
+                        if m2 and m2.group(2) == owner and m2.group(3) == kind:
+                            ivars.add(m2.group(1))
+                uses = any(r.get('k') == 'Ref' and r.get('n') in ivars for a in args for r in walk(a))
                 yield loop, c, ivar, uses
+
+
+def accumulating_flags(f):
+    """bool locals that are initialised with a constant before a loop, assigned inside it and read after it (and do not control the
+    loop).  Yields (var node, loop, assignment, monotone?) - monotone = assigned the constant that differs from the initial value,
+    or a compound assignment, or a value that depends on the flag itself."""
+    from faillog import _can_reach
+    for v in f.walk():
+        if v.get('k') != 'Var' or v.get('t') != 'bool' or not v.get('c') or v['c'][0].get('k') != 'Bool':
+            continue
+        init = v['c'][0].get('v')
+        d = v['d']
+        for loop in f.walk():
+            if loop.get('k') not in ('For', 'While', 'RangeFor', 'Do'):
+                continue
+            inside = {x['i'] for x in walk(loop)}
+            if v['i'] in inside:
+                continue
+            asg = [x for x in walk(loop) if ((x.get('k') == 'Bin' and x.get('op') == '=') or x.get('k') == 'CAssign') and x['c'][0].get('k') == 'Ref' and x['c'][0].get('d') == d]
+            if not asg:
+                continue
+            cfg = f.cfg()
+            reads_after = [r for r in f.walk() if r.get('k') == 'Ref' and r.get('d') == d and r['i'] not in inside and f.parent(r) is not None
+                           and not (f.parent(r).get('k') in ('Bin', 'CAssign') and f.parent(r)['c'][0] is r) and _can_reach(cfg, loop, r) and r.get('l', 0) > loop.get('l', 0)]
+            cnd = role(loop, 'cond')
+            in_cond = cnd is not None and any(r.get('k') == 'Ref' and r.get('d') == d for r in walk(cnd))
+            if not reads_after or in_cond:
+                continue
+            for x in asg:
+                rhs = x['c'][1]
+                mono = (rhs.get('k') == 'Bool' and rhs.get('v') != init) or x.get('k') == 'CAssign' or any(r.get('k') == 'Ref' and r.get('d') == d for r in walk(rhs))
+                # an assignment that is immediately followed by leaving the loop records a search result, not an accumulation
+                yield v, loop, x, mono
